@@ -182,6 +182,8 @@ class Coordinate:
             Coordinate
         """
         parts, zm = wkt_str.split(' '), {}
+        if len(parts) < 2:
+            raise ValueError(f'Invalid WKT coordinate: {wkt_str}')
         if len(parts) > 2:
             warn_once(
                 'Z/M values are not supported for geometric operations and will be ignored.'
